@@ -481,6 +481,13 @@ def rw_note(ctx, suite, detail, case):
     """SCPConnection.read / write (chunking, access type, slice assembly) belong to property C07, whose check
     decides them; a disagreement here only means the composition model (readThrough / memAfter) is not
     validated on this tree.  It is recorded in the evidence and never decides C06."""
+    if getattr(ctx, "rw_decides", False):
+        # running under the C07 check: there the disagreement is C07's to decide
+        if "differ from the machine" in detail or "not memory[addr := data]" in detail:
+            ctx.violation("through-burst-not-exact", detail, case)
+        else:
+            ctx.mismatch(suite, detail, case)
+        return
     ctx.tag("rw_through_DISAGREES")
     notes = ctx.extra.setdefault("rw_through_disagreements", [])
     if len(notes) < 5:
